@@ -18,7 +18,7 @@ func altConfigs(c *Ctx, repo string) []map[string]any {
 	pr := registry[c.Prop]
 	var out []map[string]any
 	for _, cfg := range [][2]string{{"linux", "386"}, {"windows", "amd64"}, {"darwin", "arm64"}} {
-		p2, err := Load(repo, false, "GOOS="+cfg[0], "GOARCH="+cfg[1], "CGO_ENABLED=0")
+		p2, err := Load(repo, pr.whole, "GOOS="+cfg[0], "GOARCH="+cfg[1], "CGO_ENABLED=0")
 		rec := map[string]any{"GOOS": cfg[0], "GOARCH": cfg[1]}
 		if err != nil {
 			rec["error"] = err.Error()
